@@ -1,8 +1,164 @@
 # C08 — WorkPool: every task runs exactly once; call() returns after its task finished.
+# Engines: E2 (real WorkPool::main_loop on the current vCPU through join_current_vcpu_into_workpool(), all three
+# thread modes, under the virtual clock; model coq/C08/C08_Coop.v over coq/Sched) whose runs are ALSO replayed,
+# label by label, through the all-interleavings model coq/C08/C08_Model.v (the one the theorems are about);
+# plus an uncontrolled multi-OS-thread run (harness/C08/mt_oracle.cpp, ASan) that only feeds the property oracle.
 import sys
 from vlib import *
 sys.path.insert(0, os.path.join(VERIF, 'harness', 'E2'))
 import e2lib
+
+ESHUTDOWN, ETIMEDOUT = 108, 110
+PENDING = os.path.join(VERIF, 'checks', 'C08_pending_findings.json')
+F1_WITNESS = 'P wp 0 4 | create 1 0;create 2 0;usleep 10;interrupt 2 108;usleep 3000;wp_destroy 0 | wp_join 0 | wp_call 0 1 100;nop | wp_tt | wp_tt'
+
+
+def ring_capacity(c):
+    if c <= 1:
+        return 2
+    p = 2
+    while p < c:
+        p *= 2
+    return p
+
+
+# ------------------------------------------------------------------ generator -----
+def gen_prog(rng, big=False):
+    mode = rng.choice([-1, -1, 0, 0, 0, 1, 2, 3])
+    ring = rng.choice([1, 2, 2, 3, 4, 4, 5, 8, 16])
+    nsub = rng.randint(1, 3)
+    njoin = 1 if rng.random() < .75 else 2
+    next_id = [1]
+    pal = rng.choice([[100, 100, 200], [50, 100, 150], [10, 20, 30, 40], [1, 2, 3], [100], [300, 700, 1100], [1024, 1023, 1025, 2048]])
+
+    def body():
+        r = rng.random()
+        if r < .30: return []
+        if r < .45: return [0]
+        if r < .60: return [rng.choice(pal)]
+        return [rng.choice([0, rng.choice(pal)]) for _ in range(rng.randint(1, 4))]
+
+    def submit():
+        i = next_id[0]; next_id[0] += 1
+        kind = 'wp_call' if rng.random() < .45 else 'wp_async'
+        return (kind, [0, i] + body())
+
+    def filler():
+        r = rng.random()
+        if r < .45: return ('usleep', [rng.choice(pal + [0])])
+        if r < .8: return ('yield', [])
+        return ('nop', [])
+
+    threads = [[]]
+    # joiners first: their first op is wp_join
+    for j in range(njoin):
+        ops = [('wp_join', [0])]
+        if rng.random() < .3: ops.append(('usleep', [rng.choice(pal)]))
+        threads.append(ops)
+    burst = rng.random() < .4
+    for s in range(nsub):
+        ops = []
+        n = rng.randint(1, 7 if not big else 14)
+        for _ in range(n):
+            if not burst and rng.random() < .35: ops.append(filler())
+            ops.append(submit())
+        if burst and rng.random() < .5:
+            ops = [o for o in ops if o[0] != 'wp_call'] + [o for o in ops if o[0] == 'wp_call'][:1]
+        threads.append(ops)
+    n = len(threads)
+    t0 = [('create', [k, 0]) for k in range(1, n)]
+    if rng.random() < .3:
+        t0.insert(rng.randint(1, len(t0)), submit())
+    style = rng.random()
+    if style < .35:
+        pass                                    # destruction right after the creates: races with everything
+    elif style < .55:
+        t0.append(('yield', []))
+    elif style < .7:
+        t0 += [('yield', [])] * rng.randint(2, 6)
+    else:
+        t0.append(('usleep', [rng.choice([1, 50, 100, 500, 1024, 3000, 5000])]))
+    # EINTR-class interrupts (semaphore::wait retries them): to callers, dispatchers, sleeping task bodies' threads
+    if rng.random() < .25:
+        for _ in range(rng.randint(1, 3)):
+            t0.append(('interrupt', [rng.randrange(1, n), rng.choice([4, 4, 11, 125])]))
+            if rng.random() < .5: t0.append(('usleep', [rng.choice(pal)]))
+    if rng.random() < .15:                     # a second destroyer racing
+        k = rng.randrange(1 + njoin, n)
+        threads[k].insert(rng.randint(0, len(threads[k])), ('wp_destroy', [0]))
+    t0.append(('wp_destroy', [0]))
+    threads[0] = t0
+    ntasks = next_id[0]
+    slot = 'wp_tt' if mode == 0 else 'wp_pt'
+    if mode >= 0:
+        threads += [[(slot, [])] for _ in range(ntasks + 1)]
+    return e2lib.fmt_case([('wp', [mode, ring])], threads)
+
+
+def analyse(case, out):
+    """the property evaluated on the IMPLEMENTATION's trace, independent of the Coq models"""
+    if out.startswith(('CRASH', 'HANG', 'NONDET', 'NOOUTPUT', 'BADCASE', 'INITFAIL', 'PIPEFAIL')):
+        return 'implementation failed: ' + out[:200]
+    r = e2lib.parse_result(out)
+    if r is None:
+        return 'unparsable output: %r' % out[:200]
+    if r['flag']:
+        return 'run did not end normally: ' + r['flag']
+    decls, threads = e2lib.parse_case(case)
+    ops = {}
+    for k, t in enumerate(threads):
+        for pc, (name, args) in enumerate(t):
+            ops[(k, pc)] = (name, args)
+    start, fin, dele = {}, {}, {}
+    destroy_at = None
+    pos = 0
+    submitted = {}     # id -> kind, for submissions known to have been accepted
+    for pos, (tid, pc, ret, err, tm) in enumerate(r['tr']):
+        if tid >= 1000:
+            i = tid - 1000
+            d = (start, fin, dele)[pc] if pc in (0, 1, 2) else None
+            if d is None:
+                return 'unknown task event %d.%d' % (tid, pc)
+            if i in d:
+                return 'task %d: event %s happened twice' % (i, ('start', 'finish', 'delete')[pc])
+            if ret != 1:
+                return 'task %d: counter of %s is %d' % (i, ('start', 'finish', 'delete')[pc], ret)
+            d[i] = pos
+            if pc == 1 and i not in start: return 'task %d finished without starting' % i
+            if pc == 2 and i not in fin: return 'task %d deleted before it finished' % i
+            if destroy_at is not None:
+                return 'task %d event after the destructor returned' % i
+            continue
+        name, args = ops.get((tid, pc), ('?', []))
+        if name == 'wp_call' and ret != e2lib_SKIPPED:
+            i = args[1]
+            if ret != 1 or i not in fin:
+                return 'call() of task %d returned before the task finished (finished flag %d)' % (i, ret)
+            submitted[i] = 'call'
+        if name == 'wp_async' and ret != e2lib_SKIPPED:
+            submitted[args[1]] = 'async'
+        if name == 'wp_destroy' and ret == 0:
+            destroy_at = pos
+            for i in start:
+                if i not in fin:
+                    return 'destructor returned while task %d was still running' % i
+            for i, kind in submitted.items():
+                if i not in fin:
+                    return 'destructor returned before accepted task %d finished' % i
+                if kind == 'async' and i not in dele:
+                    return 'destructor returned before async task %d was deleted' % i
+    for i in dele:
+        if submitted.get(i) == 'call':
+            return 'call task %d was deleted' % i
+    if destroy_at is not None:
+        for (k, pc) in r['blocked']:
+            nm = ops.get((k, pc), ('?', []))[0]
+            if nm in ('wp_join', 'wp_call', 'wp_async', 'wp_destroy'):
+                return 'thread %d still blocked in %s after the pool was destroyed' % (k, nm)
+    return None
+
+
+e2lib_SKIPPED = -2
 
 
 class Check(DiffCheck):
@@ -13,6 +169,14 @@ class Check(DiffCheck):
     properties_v = 'C08/C08_Properties.v'
     extract_v = 'C08/C08_Extract.v'
     model_module = 'C08_model'
+    case_timeout = 900
+    rule = ('E2 programs: one WorkPool(0,0,0,mode,ring) with mode in {-1,0,1,2,3} and ring in {1..16}; 1-2 photon threads join the pool '
+            '(join_current_vcpu_into_workpool), 1-3 submitters issue call()/async_call() bursts with bodies that sleep/yield, the main thread '
+            'destroys the pool at a random moment (often right after the last submit), EINTR-class interrupts. Non-trivial = more tasks than '
+            'ring slots, or a task body that blocks.')
+    partial_note = ('PARTIAL by design: the cross-OS-thread interleavings (submitters on other vCPUs / plain OS threads, several worker vCPUs, the '
+                    'destructor racing with them) are proved on the model (coq/C08/C08_Model.v) and only SAMPLED on the implementation by the '
+                    'uncontrolled multi-thread oracle run; they are not replayed under a controlled scheduler.')
 
     def __init__(self):
         self.runner_ml = e2lib.make_runner(self.id, ['ocaml/E2_lib.ml', 'ocaml/C08_run.ml'])
@@ -21,7 +185,33 @@ class Check(DiffCheck):
         return e2lib.build_impl(self.id, ['harness/C08/ops_wp.cpp'])
 
     def gen_cases(self, tier, rng):
-        return [l.strip() for l in open('/tmp/C08_t/a.cases') if l.strip()][:5]
+        cases = []
+        corpus = os.path.join(VERIF, 'replay', 'corpus', 'C08.cases')
+        if os.path.exists(corpus):
+            cases += [l.strip() for l in open(corpus) if l.strip() and not l.startswith('#')]
+        n = 300 if tier == 'quick' else 3000
+        for k in range(n):
+            cases.append(gen_prog(rng, big=(k % 5 == 4)))
+        return list(dict.fromkeys(cases))
+
+    def nontrivial(self, case):
+        if not case.startswith('P'):
+            return True
+        decls, threads = e2lib.parse_case(case)
+        cap = ring_capacity(decls[0][1][1]) if decls else 2
+        subs = [o for t in threads for o in t if o[0] in ('wp_call', 'wp_async')]
+        return len(subs) > cap or any(len(o[1]) > 2 for o in subs)
+
+    def oracle(self, case, impl_out):
+        if not case.startswith('P'):
+            return None
+        return analyse(case, impl_out)
+
+    def category(self, case):
+        if not case.startswith('P'):
+            return case[:1]
+        decls, _ = e2lib.parse_case(case)
+        return 'mode=%d ring=%d' % (decls[0][1][0], ring_capacity(decls[0][1][1]))
 
 
 if __name__ == '__main__':
